@@ -53,7 +53,7 @@ def afterObs (ws : List String) : String :=
     match termsOf op stop with
     | none => "bad-op"
     | some (sp, ts) =>
-      let f := delFactsOf Gen.blocking Gen.peerDoneDeferBeforeReturns
+      let f := delFactsOf Gen.blocking (Gen.peerDoneDeferBeforeReturns && Gen.peerDoneCloseFirst)
       let d := delFinal f n r
       let expClosed := d.peers.count true
       let expDead := d.readers.count (some .dead)
@@ -64,6 +64,7 @@ def afterObs (ws : List String) : String :=
         && kv ws "done" == some (b (doneClosed Gen.teardown d))
         && kv ws "mem" == some (b (piecesFreed Gen.teardown d))
         && kv ws "gor" == some (b (f.peerDoneAlways && expClosed == n && expDead == r))
+        && kv ws "getters" == some (b f.peerDoneAlways)
       let mine := ts.filter (fun t => resStr t.res == got || (got == "ret" && t.res.isSome))
       let conn :=
         match kv ws "opconn" with
